@@ -21,19 +21,23 @@ theorem C10_facts :
   refine ⟨by decide, by decide, by decide⟩
 
 /-- Two bundles share an identity iff source, creation time and sequence number agree, both are
-    fragments or both are not, and for fragments offset and total length agree as well. -/
-theorem C10_identity (p q : Primary) :
-    identOf p = identOf q ↔
+    fragments or both are not, and for fragments the offset and the length of the fragment's
+    payload (BTSD of the block numbered 1) agree as well. -/
+theorem C10_identity (p q : Primary) (bs cs : List Blk) :
+    identOf p bs = identOf q cs ↔
       p.src = q.src ∧ p.ts.time = q.ts.time ∧ p.ts.seq = q.ts.seq
       ∧ isFragment p.flags = isFragment q.flags
-      ∧ (isFragment p.flags = true → p.fragOff = q.fragOff ∧ p.totalLen = q.totalLen) := by
+      ∧ (isFragment p.flags = true → p.fragOff = q.fragOff ∧ pyldLen bs = pyldLen cs) := by
   unfold identOf
   cases hp : isFragment p.flags <;> cases hq : isFragment q.flags <;> simp [Ident.mk.injEq] <;> grind
 
-example : identOf { src := .dtn [1], ts := ⟨5, 1⟩, flags := 1, fragOff := 0, totalLen := 9 }
-        ≠ identOf { src := .dtn [1], ts := ⟨5, 1⟩, flags := 1, fragOff := 3, totalLen := 9 } := by decide
-example : identOf { src := .dtn [1], ts := ⟨5, 1⟩, flags := 0, fragOff := 0, totalLen := 9 }
-        = identOf { src := .dtn [1], ts := ⟨5, 1⟩, flags := 4, fragOff := 3, totalLen := 7 } := by decide
+-- look-alikes: same source and timestamp, different offset / different payload length / whole bundle
+example : identOf { src := .dtn [1], ts := ⟨5, 1⟩, flags := 1, fragOff := 0, totalLen := 9 } [{ c := { typeCode := 1, blockNum := 1, btsd := some [7, 7] } }]
+        ≠ identOf { src := .dtn [1], ts := ⟨5, 1⟩, flags := 1, fragOff := 3, totalLen := 9 } [{ c := { typeCode := 1, blockNum := 1, btsd := some [7, 7] } }] := by decide
+example : identOf { src := .dtn [1], ts := ⟨5, 1⟩, flags := 1, fragOff := 0, totalLen := 9 } [{ c := { typeCode := 1, blockNum := 1, btsd := some [7, 7] } }]
+        ≠ identOf { src := .dtn [1], ts := ⟨5, 1⟩, flags := 1, fragOff := 0, totalLen := 9 } [{ c := { typeCode := 1, blockNum := 1, btsd := some [7] } }] := by decide
+example : identOf { src := .dtn [1], ts := ⟨5, 1⟩, flags := 0, fragOff := 0, totalLen := 9 } []
+        = identOf { src := .dtn [1], ts := ⟨5, 1⟩, flags := 4, fragOff := 3, totalLen := 7 } [{ c := { typeCode := 1, blockNum := 1 } }] := by decide
 
 /-- `firstMatch` is the action of the first route whose match bit is set: there is an index
     with a set bit, all earlier bits are clear, and the action is the one at that index. -/
@@ -106,9 +110,9 @@ theorem C10_other_action_nothing (cfg : Cfg) (st : St) (now : Nat) (rx : RxBundl
 theorem C10_first_match_forward (cfg : Cfg) (st : St) (now : Nat) (rx : RxBundle)
     (hacc : accepted cfg st rx) (hd : rx.primary.dest ≠ cfg.nodeId)
     (hm : firstMatch cfg.rxRoutes rx.routeBits = some .forward) :
-    (recvBundle cfg st now rx).2 = [.queued (identOf rx.primary)] := by
+    (recvBundle cfg st now rx).2 = [.queued (identOf rx.primary rx.blocks)] := by
   rw [recv_accepted cfg st now rx hacc, dispose_eff, chain_static cfg rx now _ hd (by simp [Ctr.record, recordAct, hasAct]), hm]
-  simp [Ctr.record, recordAct, hasAct, runChain, runStep, secStep]
+  simp [Ctr.record, recordAct, hasAct, runChain, runStep, secStep, Ctr.ident]
 
 /-- First-match routing, action `delete`: neither delivered nor queued (only the report, if one
     was requested). -/
@@ -117,7 +121,7 @@ theorem C10_first_match_delete (cfg : Cfg) (st : St) (now : Nat) (rx : RxBundle)
     (hm : firstMatch cfg.rxRoutes rx.routeBits = some .delete) :
     ∀ e ∈ (recvBundle cfg st now rx).2, ∃ i rep r, e = .report i rep r := by
   rw [recv_accepted cfg st now rx hacc, dispose_eff, chain_static cfg rx now _ hd (by simp [Ctr.record, recordAct, hasAct]), hm]
-  simp [Ctr.record, recordAct, hasAct, runChain, runStep, secStep, finishEff]
+  simp [Ctr.record, recordAct, hasAct, runChain, runStep, secStep, finishEff, Ctr.ident]
   intro e he
   split at he <;> simp_all
 
@@ -127,10 +131,10 @@ theorem C10_first_match_deliver (cfg : Cfg) (st : St) (now : Nat) (rx : RxBundle
     (hacc : accepted cfg st rx) (hd : rx.primary.dest ≠ cfg.nodeId)
     (hm : firstMatch cfg.rxRoutes rx.routeBits = some .deliver)
     (hf : isFragment rx.primary.flags = false) (hb : rx.bcb = .pass) (hi : rx.bib = .pass) :
-    Effect.delivered (identOf rx.primary) ∈ (recvBundle cfg st now rx).2
+    Effect.delivered (identOf rx.primary rx.blocks) ∈ (recvBundle cfg st now rx).2
     ∧ ∀ i, Effect.queued i ∉ (recvBundle cfg st now rx).2 := by
   rw [recv_accepted cfg st now rx hacc, dispose_eff, chain_static cfg rx now _ hd (by simp [Ctr.record, recordAct, hasAct]), hm]
-  simp [Ctr.record, recordAct, hasAct, runChain, runStep, secStep, hf, hb, hi, hd, finishEff]
+  simp [Ctr.record, recordAct, hasAct, runChain, runStep, secStep, hf, hb, hi, hd, finishEff, Ctr.ident]
   intro i; split <;> simp
 
 /-- A bundle addressed to the node's own administrative endpoint is delivered whatever the
@@ -139,14 +143,14 @@ theorem C10_admin_delivered (cfg : Cfg) (st : St) (now : Nat) (rx : RxBundle)
     (hacc : accepted cfg st rx) (hd : rx.primary.dest = cfg.nodeId)
     (hf : isFragment rx.primary.flags = false) (hb : rx.bcb = .pass) (hi : rx.bib = .pass)
     (ha : rx.adm ≠ .delete) :
-    Effect.delivered (identOf rx.primary) ∈ (recvBundle cfg st now rx).2
+    Effect.delivered (identOf rx.primary rx.blocks) ∈ (recvBundle cfg st now rx).2
     ∧ ∀ i, Effect.queued i ∉ (recvBundle cfg st now rx).2 := by
   rw [recv_accepted cfg st now rx hacc, dispose_eff, rxChain_eq]
   cases hadm : rx.adm <;>
-    simp_all [Ctr.record, recordAct, hasAct, runChain, runStep, secStep, finishEff] <;>
+    simp_all [Ctr.record, recordAct, hasAct, runChain, runStep, secStep, finishEff, Ctr.ident] <;>
     (intro i; split <;> simp)
 
-example : Effect.delivered (identOf { src := .dtn [3], ts := ⟨4, 0⟩ }) ∈
+example : Effect.delivered (identOf { src := .dtn [3], ts := ⟨4, 0⟩ } []) ∈
     (recvBundle { nodeId := .dtn [1], rxRoutes := [.forward] } {} 5
       { primary := { dest := .dtn [1], src := .dtn [3], ts := ⟨4, 0⟩ }, blocks := [], routeBits := [true] }).2 := by
   decide
@@ -168,7 +172,7 @@ theorem C10_at_most_once (cfg : Cfg) (st : St) (evs : List Ev) (id : Ident) :
     a repeat, an own-source bundle or a CRC failure schedules none (`C10_repeat_ignored`, …). -/
 theorem C10_recv_report_once (cfg : Cfg) (st : St) (now : Nat) (rx : RxBundle) :
     ((recvBundle cfg st now rx).2.filter isReport).length ≤ 1
-    ∧ ∀ i p r, Effect.report i p r ∈ (recvBundle cfg st now rx).2 → i = identOf rx.primary := by
+    ∧ ∀ i p r, Effect.report i p r ∈ (recvBundle cfg st now rx).2 → i = identOf rx.primary rx.blocks := by
   rcases recv_cases cfg st now rx with h | ⟨_, c, hc, h⟩
   · rw [h]; simp
   · rw [h, dispose_eff, ← hc]
@@ -199,28 +203,25 @@ theorem C10_fwd_once (cfg : Cfg) (st : St) (now : Nat) (sp : SendParams) :
       · simp only [finish_eff, finish_fwdQ, sendBundle_fwdQ, fwdEdit_fwdQ, List.filter_cons]
         refine ⟨by simp [finishEff_tx], ?_, trivial⟩
         simpa using finishEff_report _
-      · rename_i fr hfr
-        simp only [fwdFail, finish_eff, finish_fwdQ, sendBundle_fwdQ, fwdEdit_fwdQ, List.filter_append]
-        refine ⟨?_, ?_, trivial⟩
-        · cases fr <;> simp [finishEff_tx]
-        · have := finishEff_report
-            ((sendBundle cfg (fwdEdit cfg { st with fwdQ := q } now c0).1 now sp
-              (fwdEdit cfg { st with fwdQ := q } now c0).2.1).2.1.record .delete now (some reasonNoRoute))
-          cases fr <;> simpa using this
+      · simp only [finish_eff, finish_fwdQ, sendBundle_fwdQ, fwdEdit_fwdQ, List.filter_cons]
+        refine ⟨by simp [finishEff_tx], ?_, trivial⟩
+        simpa using finishEff_report _
+      · simp only [fwdFail, finish_eff, finish_fwdQ, sendBundle_fwdQ, fwdEdit_fwdQ, List.nil_append]
+        exact ⟨by simp [finishEff_tx], finishEff_report _, trivial⟩
 
 -- a history with a repeat, a look-alike fragment and an own-source bundle
 example :
     let cfg : Cfg := { nodeId := .dtn [1], rxRoutes := [.deliver] }
     let b : RxBundle := { primary := { dest := .dtn [2], src := .dtn [3], ts := ⟨4, 0⟩ }, blocks := [], routeBits := [true] }
     let own : RxBundle := { b with primary := { b.primary with src := .dtn [1] } }
-    (run cfg {} [.recv 5 b, .recv 6 b, .recv 7 own]).2 = [.delivered (identOf b.primary)] := by
+    (run cfg {} [.recv 5 b, .recv 6 b, .recv 7 own]).2 = [.delivered (identOf b.primary b.blocks)] := by
   decide
 
 
 /-- Repeats are ignored: a bundle whose identity has been seen causes no effect and no state
     change. -/
 theorem C10_repeat_ignored (cfg : Cfg) (st : St) (now : Nat) (rx : RxBundle)
-    (h : identOf rx.primary ∈ st.seen) : recvBundle cfg st now rx = (st, []) :=
+    (h : identOf rx.primary rx.blocks ∈ st.seen) : recvBundle cfg st now rx = (st, []) :=
   recv_repeat cfg st now rx h
 
 /-- Bundles sourced by this node are ignored: no effect, no state change. -/
